@@ -118,6 +118,17 @@ dhcp-policies:
         apply-lease-time: 30s
 ";
 
+// K8: a pool whose textual range encloses addresses that are not in it: every address 192.0.2.20
+// to 192.0.2.29 sorts, as text, between "192.0.2.2" and "192.0.2.3".
+const K8_TEXT: &str = "---
+dhcp-policies:
+  - match-subnet: 192.0.2.0/24
+    apply-range: {start: 192.0.2.2, end: 192.0.2.3}
+";
+fn k8_pool(s: Ipv4Addr, _c: &[u8]) -> Option<Vec<Ipv4Addr>> {
+    if in1(s) { Some(vec![ip("192.0.2.2"), ip("192.0.2.3")]) } else { None }
+}
+
 fn k1_pool(s: Ipv4Addr, _c: &[u8]) -> Option<Vec<Ipv4Addr>> {
     if in1(s) { Some(vec![ip("192.0.2.9"), ip("192.0.2.10")]) } else { None }
 }
@@ -153,6 +164,7 @@ pub fn all_cfgs() -> Result<Vec<Cfg>, String> {
         ("K5", K5_TEXT, k5_pool, &[IF1]),
         ("K6", K6_TEXT, k1_pool, &[IF1]),
         ("K7", K7_TEXT, k1_pool, &[IF1]),
+        ("K8", K8_TEXT, k8_pool, &[IF1]),
     ];
     let mut out = vec![];
     for (name, text, pool_for, ifaces) in specs {
@@ -901,6 +913,12 @@ pub fn deep_roots() -> Vec<State> {
         vec![r("192.0.2.9", &a, -100_000, 86_400)],
         vec![r("192.0.2.9", &a, -30_000, 86_400), r("192.0.2.10", &b, -100, 300)],
         vec![r("192.0.2.10", &a, -50_000, 60_000), r("192.0.2.9", &b, -90_000, 86_400)],
+        // a holder whose identity is the empty byte string (zero-length client identifier), and one
+        // with a 255-octet identity
+        vec![r("192.0.2.9", &vec![], -100, 400), r("192.0.2.11", &vec![0x7a; 255], -100, 400)],
+        // two clients outside the alphabet hold addresses that lie outside every pool of the
+        // alphabet but, as text, inside the range of K8's pool
+        vec![r("192.0.2.20", &vec![0xee; 6], -100, 400), r("192.0.2.21", &vec![0xef; 6], -100, 400)],
     ]
 }
 
